@@ -488,6 +488,15 @@ void ezc3d::c3d::updateHeader()
     }
 }
 
+// true if the group holds a parameter of that name
+static bool hasParameter(const ezc3d::ParametersNS::GroupNS::Group& group, const std::string& name)
+{
+    for (size_t i = 0; i < group.nbParameters(); ++i)
+        if (!group.parameter(i).name().compare(name))
+            return true;
+    return false;
+}
+
 void ezc3d::c3d::updateParameters(const std::vector<std::string> &newPoints, const std::vector<std::string> &newAnalogs)
 {
     if (data().nbFrames() != 0 && newPoints.size() > 0)
@@ -513,8 +522,6 @@ void ezc3d::c3d::updateParameters(const std::vector<std::string> &newPoints, con
         grpPoint.parameter_nonConst("USED").set(nPoints);
 
         size_t idxLabels(grpPoint.parameterIdx("LABELS"));
-        size_t idxDescriptions(grpPoint.parameterIdx("DESCRIPTIONS"));
-        size_t idxUnits(grpPoint.parameterIdx("UNITS"));
         std::vector<std::string> labels;
         std::vector<std::string> descriptions;
         std::vector<std::string> units;
@@ -533,8 +540,11 @@ void ezc3d::c3d::updateParameters(const std::vector<std::string> &newPoints, con
             units.push_back("mm");
         }
         grpPoint.parameter_nonConst(idxLabels).set(labels);
-        grpPoint.parameter_nonConst(idxDescriptions).set(descriptions);
-        grpPoint.parameter_nonConst(idxUnits).set(units);
+        // DESCRIPTIONS and UNITS are optional in a c3d file: they are kept up to date only if the file had them
+        if (hasParameter(grpPoint, "DESCRIPTIONS"))
+            grpPoint.parameter_nonConst("DESCRIPTIONS").set(descriptions);
+        if (hasParameter(grpPoint, "UNITS"))
+            grpPoint.parameter_nonConst("UNITS").set(units);
     }
 
     // If analogous data has been added
@@ -551,7 +561,6 @@ void ezc3d::c3d::updateParameters(const std::vector<std::string> &newPoints, con
         grpAnalog.parameter_nonConst("USED").set(nAnalogs);
 
         size_t idxLabels(static_cast<size_t>(grpAnalog.parameterIdx("LABELS")));
-        size_t idxDescriptions(static_cast<size_t>(grpAnalog.parameterIdx("DESCRIPTIONS")));
         std::vector<std::string> labels;
         std::vector<std::string> descriptions;
         for (size_t i = 0; i<nAnalogs; ++i){
@@ -568,7 +577,8 @@ void ezc3d::c3d::updateParameters(const std::vector<std::string> &newPoints, con
             descriptions.push_back("");
         }
         grpAnalog.parameter_nonConst(idxLabels).set(labels);
-        grpAnalog.parameter_nonConst(idxDescriptions).set(descriptions);
+        if (hasParameter(grpAnalog, "DESCRIPTIONS"))
+            grpAnalog.parameter_nonConst("DESCRIPTIONS").set(descriptions);
 
         size_t idxScale(grpAnalog.parameterIdx("SCALE"));
         std::vector<float> scales(grpAnalog.parameter(idxScale).valuesAsFloat());
@@ -582,11 +592,13 @@ void ezc3d::c3d::updateParameters(const std::vector<std::string> &newPoints, con
             offset.push_back(0);
         grpAnalog.parameter_nonConst(idxOffset).set(offset);
 
-        size_t idxUnits(grpAnalog.parameterIdx("UNITS"));
-        std::vector<std::string> units(grpAnalog.parameter(idxUnits).valuesAsString());
-        for (size_t i = grpAnalog.parameter(idxUnits).valuesAsString().size(); i < nAnalogs; ++i)
-            units.push_back("V");
-        grpAnalog.parameter_nonConst(idxUnits).set(units);
+        if (hasParameter(grpAnalog, "UNITS")){
+            size_t idxUnits(grpAnalog.parameterIdx("UNITS"));
+            std::vector<std::string> units(grpAnalog.parameter(idxUnits).valuesAsString());
+            for (size_t i = grpAnalog.parameter(idxUnits).valuesAsString().size(); i < nAnalogs; ++i)
+                units.push_back("V");
+            grpAnalog.parameter_nonConst(idxUnits).set(units);
+        }
 
     }
     updateHeader();
